@@ -73,9 +73,11 @@ func (d *BitTimingDef) parseFrom(p *Parser) {
 	p.token(':')
 	d.BaudRate = p.optionalUint()
 	if p.peekToken().typ == ':' {
+		p.token(':')
 		d.BTR1 = p.optionalUint()
 	}
 	if p.peekToken().typ == ',' {
+		p.token(',')
 		d.BTR2 = p.optionalUint()
 	}
 }
